@@ -19,6 +19,7 @@ import (
 	"fmt"
 	"go/token"
 	"go/types"
+	"sort"
 	"strings"
 
 	"golang.org/x/tools/go/ssa"
@@ -192,9 +193,28 @@ func r35Exclusion(c *RuleCtx) {
 			return nil
 		}
 		const evOK = 1
+		// a field of the iterator that only ever holds the Maximum() of the bitmap stored in `except`
+		isExceptMax := func(v ssa.Value) bool {
+			sn, fld, base, ok := loadedField(v)
+			if !ok || sn != "SynonymsIterator" || root(base) != ssa.Value(recv) {
+				return false
+			}
+			return r35HoldsMaximumOfExcept(c.p, fld)
+		}
 		condTr := func(cond ssa.Value, outcome bool, ev uint64, _ func(ssa.Value) ssa.Value) uint64 {
 			switch x := cond.(type) {
 			case *ssa.BinOp:
+				// a document beyond the largest excluded one is not excluded
+				for _, pr := range []struct {
+					doc, max ssa.Value
+					op       token.Token
+				}{{x.X, x.Y, x.Op}, {x.Y, x.X, flipCmp(x.Op)}} {
+					if docOf(pr.doc) != nil && isExceptMax(pr.max) {
+						if (pr.op == token.GTR && outcome) || (pr.op == token.LEQ && !outcome) {
+							return ev | evOK
+						}
+					}
+				}
 				if (x.Op == token.EQL || x.Op == token.NEQ) && ((isNilConst(x.Y) && isExcept(x.X)) || (isNilConst(x.X) && isExcept(x.Y))) {
 					if (x.Op == token.EQL) == outcome {
 						return ev | evOK // no exclusion bitmap
@@ -254,6 +274,83 @@ func r35Exclusion(c *RuleCtx) {
 		}
 	}
 	c.add(statusOf(n >= 1), "exclusion/sites", "-", "the return that hands out a decoded pair is found (pinned tree: SynonymsIterator.nextSynonym)", fmt.Sprintf("found %d", n), props, nil)
+	// the exclusion bitmap an iterator was created with stays in force for the whole iteration: only
+	// the function that creates / re-initialises iterators assigns the field
+	var writers []string
+	for _, fn := range c.p.ZapFuncs {
+		isIterMethod := fn.Signature.Recv() != nil && isNamed(fn.Signature.Recv().Type(), zapPkgPath, "SynonymsIterator")
+		eachInstr(fn, func(_ *ssa.BasicBlock, in ssa.Instruction) {
+			st, ok := in.(*ssa.Store)
+			if !ok {
+				return
+			}
+			if sn, fld, base, ok := fieldOf(st.Addr); ok && sn == "SynonymsIterator" && fld == "except" && isIterMethod && root(base) == ssa.Value(fn.Params[0]) {
+				writers = append(writers, c.pos(st)+" in "+funcShortName(fn))
+			}
+		})
+	}
+	sort.Strings(writers)
+	c.add(statusOf(len(writers) == 0), "exclusion/bitmap-stays", "-", "no method of SynonymsIterator assigns its own exclusion bitmap (what the iterator was created with holds for every pair)",
+		"the exclusion bitmap is replaced during the iteration: "+strings.Join(writers, "; "), props, nil)
+}
+
+func flipCmp(op token.Token) token.Token {
+	switch op {
+	case token.GTR:
+		return token.LSS
+	case token.LSS:
+		return token.GTR
+	case token.GEQ:
+		return token.LEQ
+	case token.LEQ:
+		return token.GEQ
+	}
+	return op
+}
+
+// r35HoldsMaximumOfExcept: every store to SynonymsIterator.<fld> in the package stores the Maximum() of
+// the very bitmap that the same function stores into `except` of the same iterator (a whole-struct clear
+// zeroes both).
+func r35HoldsMaximumOfExcept(p *Program, fld string) bool {
+	n := 0
+	okAll := true
+	for _, fn := range p.ZapFuncs {
+		eachInstr(fn, func(_ *ssa.BasicBlock, in ssa.Instruction) {
+			st, ok := in.(*ssa.Store)
+			if !ok {
+				return
+			}
+			sn, f, base, ok := fieldOf(st.Addr)
+			if !ok || sn != "SynonymsIterator" || f != fld {
+				return
+			}
+			n++
+			call, ok := st.Val.(*ssa.Call)
+			if !ok {
+				okAll = false
+				return
+			}
+			callee := call.Call.StaticCallee()
+			if callee == nil || callee.Name() != "Maximum" || len(call.Call.Args) != 1 {
+				okAll = false
+				return
+			}
+			bm := call.Call.Args[0]
+			// the same bitmap goes into except of the same iterator, in the same block
+			same := false
+			for _, in2 := range st.Block().Instrs {
+				if st2, ok := in2.(*ssa.Store); ok {
+					if sn2, f2, base2, ok := fieldOf(st2.Addr); ok && sn2 == "SynonymsIterator" && f2 == "except" && root(base2) == root(base) && (sameValue(st2.Val, bm) || sameFieldLoadInBlock(st2.Val, bm)) {
+						same = true
+					}
+				}
+			}
+			if !same {
+				okAll = false
+			}
+		})
+	}
+	return n > 0 && okAll
 }
 
 // (c)
@@ -455,4 +552,27 @@ func closuresIn(v ssa.Value) []*ssa.Function {
 		}
 	}
 	return out
+}
+
+// sameFieldLoadInBlock: a and b are loads of the same field of the same object in one block, and the
+// block stores nothing into that field.
+func sameFieldLoadInBlock(a, b ssa.Value) bool {
+	sa, fa, ba, ok1 := loadedField(a)
+	sb, fb, bb, ok2 := loadedField(b)
+	if !ok1 || !ok2 || sa != sb || fa != fb || root(ba) != root(bb) {
+		return false
+	}
+	ia, ok3 := a.(ssa.Instruction)
+	ib, ok4 := b.(ssa.Instruction)
+	if !ok3 || !ok4 || ia.Block() != ib.Block() {
+		return false
+	}
+	for _, in := range ia.Block().Instrs {
+		if st, ok := in.(*ssa.Store); ok {
+			if sn, f, _, ok := fieldOf(st.Addr); ok && sn == sa && f == fa {
+				return false
+			}
+		}
+	}
+	return true
 }
